@@ -189,6 +189,36 @@ func syncFrom(c *world.Cluster, dst, src int) error {
 	}, []iface.Store{c.Stores[dst]}, nil, claimTimeout)
 }
 
+// syncAllFrom announces every entry replica src holds (not only its heads) to replica dst and waits
+// until dst holds them all: the way to complete a replica that holds the newest part of a log only.
+func syncAllFrom(c *world.Cluster, dst, src int) error {
+	ctx := context.Background()
+	all := c.Stores[src].OpLog().Values().Slice()
+	want := world.HashSet(c.Stores[src])
+	for i := 0; i < len(all); i += 6 {
+		j := i + 6
+		if j > len(all) {
+			j = len(all)
+		}
+		hs, err := cloneHeads(all[i:j])
+		if err != nil {
+			return err
+		}
+		if err := c.Stores[dst].Sync(ctx, hs); err != nil {
+			return fmt.Errorf("Sync returned %v", err)
+		}
+	}
+	return c.W.WaitClaim(fmt.Sprintf("replica %d holds all %d entries of replica %d, each of which was announced to it", dst, len(want), src), func() bool {
+		have := hashSetOf(c.Stores[dst])
+		for _, h := range want {
+			if !have[h] {
+				return false
+			}
+		}
+		return c.W.Quiescent([]iface.Store{c.Stores[dst]}, nil)
+	}, []iface.Store{c.Stores[dst]}, nil, claimTimeout)
+}
+
 // noteOwnWrite registers one entry written on replica w whose hash the write call returned; its causal
 // past is what the replica held before the call.
 func (tr *tracker) noteOwnWrite(s iface.Store, w int, before map[string]bool, hash string, op model.Op) error {
